@@ -149,6 +149,62 @@ def merge_directly(pair: dict, root: Path, who_first: str) -> dict:
     return obs
 
 
+def _suffix(mod) -> str | None:
+    return Path(mod._filepath).suffix if mod._filepath is not None and not isinstance(mod._filepath, list) else None
+
+
+def merge_by_set_member(pair: dict, root: Path, who_first: str) -> dict:
+    """Producer API: visit the two sources as children of one parent package and `set_member` them one after the
+    other ("when reassigning a module to an existing one, try to merge them as one regular and one stubs module")."""
+    import griffe
+
+    collection = griffe.ModulesCollection()
+    lines = griffe.LinesCollection()
+    parent = griffe.Module(TOP, filepath=root / "direct" / TOP / "__init__.py", modules_collection=collection, lines_collection=lines)
+    collection.set_member(TOP, parent)
+    for side in ("RS" if who_first == "runtime" else "SR"):
+        mod = call(
+            "total",
+            griffe.visit,
+            "m",
+            filepath=root / "direct" / TOP / ("m.py" if side == "R" else "m.pyi"),
+            code=gp.render_module(pair[side], side, TOP),
+            parent=parent,
+            modules_collection=collection,
+            lines_collection=lines,
+            what=f"visit of the {'runtime module' if side == 'R' else 'stubs'}",
+        )
+        call("total", parent.set_member, "m", mod, what=f"set_member of the {'runtime' if side == 'R' else 'stubs'} module ({who_first} module first)")
+    merged = parent.members["m"]
+    if merged.is_alias or merged.kind.value != "module":
+        return {"doc": None, "members": {}, "missing": True}
+    obs = gp.observe(merged)
+    obs["file"] = _suffix(merged)
+    return obs
+
+
+def load_in_two_steps(paths: list[Path], opts: dict) -> dict:
+    """One loader, two loads: first only the `-stubs` distribution is on the search paths (it is loaded as the package
+    itself), then the regular package's search path is appended and the package is loaded again."""
+    import griffe
+
+    runtime_sp, stubs_sp = paths
+    loader = griffe.GriffeLoader(search_paths=[stubs_sp], allow_inspection=False)
+    call("total", loader.load, TOP, try_relative_path=False, find_stubs_package=True, what="first load (only the -stubs package visible)")
+    loader.finder.append_search_path(runtime_sp)
+    call("total", loader.load, TOP, try_relative_path=False, what="second load (regular package now visible)")
+    top = loader.modules_collection.members[TOP]
+    target = opts["target"]
+    if top.is_alias or target not in top.members:
+        return {"doc": None, "members": {}, "missing": True}
+    top = top.members[target]
+    if top.is_alias or top.kind.value != "module":
+        return {"doc": None, "members": {}, "missing": True}
+    obs = gp.observe(top)
+    obs["file"] = _suffix(top)
+    return obs
+
+
 def check_case(case) -> list[Fail]:
     pair, placement = case["pair"], case["placement"]
     if Path(TOP).exists() or Path(f"{TOP}.py").exists():
@@ -225,6 +281,26 @@ def check_case(case) -> list[Fail]:
                 diffs = gp.compare(direct_first, obs) if obs.get("file") == direct_first.get("file") else []
                 what = "; ".join(d[2] for d in diffs[:3]) or f"file {direct_first.get('file')!r} vs {obs.get('file')!r}"
                 fails.append(Fail("order-independent", "merge_stubs-argument-order", f"merge_stubs(runtime, stubs) and merge_stubs(stubs, runtime) differ: {what}"))
+        # the producer API (implicit merge in set_member), both arrival orders; and, for -stubs packages, the
+        # two-step loader sequence in which the stubs are already in the collection when the regular package arrives
+        routes = [(f"set_member, {w} module first", lambda w=w: merge_by_set_member(pair, root, w)) for w in ("runtime", "stubs")]
+        if placement == "stubs-pkg":
+            routes.append(("two-step load, stubs package first", lambda: load_in_two_steps(paths, opts)))
+        reference = None
+        for how, route in routes:
+            try:
+                obs = route()
+            except GriffeRaised as gr:
+                if gr.fail.bucket not in {f.bucket for f in fails}:
+                    fails.append(gr.fail)
+                continue
+            judge(obs, how)
+            if reference is None:
+                reference = obs
+            elif obs != reference and how.startswith("set_member"):
+                diffs = gp.compare(reference, obs) if obs.get("file") == reference.get("file") and not obs.get("missing") else []
+                what = "; ".join(d[2] for d in diffs[:3]) or f"file {reference.get('file')!r} vs {obs.get('file')!r}"
+                fails.append(Fail("order-independent", "set_member-arrival-order", f"set_member(runtime) then set_member(stubs) differs from the opposite order: {what}"))
     return fails
 
 
